@@ -52,7 +52,7 @@ BOUNDS = {
         'thinning': 'molecules with 4 heavy atoms: one rendering and one base-graph order per share assignment',
         'shared_pairs_per_case': '1..6'},
     'thorough': {
-        'blockA': 'as quick plus every C N O Cl [N+] [O-] molecule with <= 3 and every C N O molecule with 4 heavy atoms, 3 renderings',
+        'blockA': 'as quick plus every C N O Cl [N+] [O-] molecule with <= 3 and every C N O molecule with 4 heavy atoms; 3 renderings up to 3 atoms, 2 for 4 atoms',
         'blockB': '43 library molecules x 30 seeded partitions x 6 seeded share subsets',
         'blockC': 'ladder molecules (2-4 bonds between two fragments, some double): every assignment with >= 2 shared atoms',
         'shared_pairs_per_case': '1..8'},
@@ -111,7 +111,7 @@ def _block_a(mols, rng, n_rend, quick):
             for shares in share_assignments(mol, part):
                 tris = [False, True] if multi_copied(mol, part, shares) else [False]
                 for tri in tris:
-                    k = n_rend if (len(mol['a']) <= 3 or not quick) else 1
+                    k = n_rend if len(mol['a']) <= 3 else (1 if quick else 2)
                     rends = ([{'starts': [0] * nf}] if (k > 1 or len(shares) % 2) else []) \
                         + list(g2.covering_renderings(mol, part, max(k - 1, 0 if len(shares) % 2 else 1), rng))
                     for i, r in enumerate(rends):
@@ -179,7 +179,8 @@ def classify(case, built, kind, exc=None):
     * F2 text pattern (descriptor behind `=1`);
     * a shared atom is aromatic and the result is a kekulisation SyntaxError or a molecule that lost aromatic bonds:
       the kept copy keeps its own `hcount` although it inherits the ring bonds (stale hcount);
-    * KeyError with one atom in >= 4 coarse nodes: one-level remap of repeated merges in squash_atoms;
+    * KeyError / NetworkXError (node not in graph) with one atom in >= 4 coarse nodes: one-level remap of repeated merges
+      in squash_atoms;
     * pairwise marked copies of one atom (F15 self-merge);
     * everything else generic."""
     plan = built['plan']
@@ -189,7 +190,7 @@ def classify(case, built, kind, exc=None):
     if arom_shared and ((kind == 'resolver-exception' and exc == 'SyntaxError')
                         or kind in ('wrong-molecule', 'wrong-hydrogens', 'differs-from-disjoint')):
         return 'resolve/shared-aromatic-atom-stale-hcount/' + kind
-    if kind == 'resolver-exception' and exc == 'KeyError' and max(len(m) for m in plan['member'].values()) >= 4:
+    if kind == 'resolver-exception' and exc in ('KeyError', 'NetworkXError') and max(len(m) for m in plan['member'].values()) >= 4:
         return 'resolve/atom-shared-by-four-or-more-nodes/' + kind
     if case.get('tri') and plan['n_pairs'] > plan['n_merge']:
         return 'resolve/one-atom-shared-by-three-mutually-adjacent-nodes/' + kind
